@@ -28,7 +28,8 @@ def run(ctx):
     ctx.level = "model_checking"
     ctx.rule = ("TLC exhaustive over first-element classes x length-field classes x {EVRLE,IVRLE} (+ stray delimiter, sequence, "
                 "pixel data first), each followed by a tail with short/long VR headers, nested sequences with explicit and "
-                "undefined lengths; every case replayed with flexible decoding (declared EVRLE and IVRLE) and the regular "
+                "undefined lengths; plus unambiguous first elements followed by later elements (root and in items) whose length "
+                "fields spell VRs compatible / incompatible with their own entry (the lock must not be re-probed); every case replayed with flexible decoding (declared EVRLE and IVRLE) and the regular "
                 "decoder. distinct_nontrivial = cases that satisfy the premise (unambiguous first element).")
     ctx.assumptions += [
         "premise of C08 as the predicate AdaptiveVR!Ambiguous: for implicit data the two low length bytes of the first element do not "
@@ -39,9 +40,12 @@ def run(ctx):
     ]
     vlib.build_harness([R.DRV])
 
-    r = vlib.tlc(R.SPEC, "MC_Adaptive", "MC_Adaptive.cfg", workers=4, timeout=3000, heap="8g")
+    r = vlib.tlc(R.SPEC, "MC_Adaptive", "MC_Adaptive.cfg", workers=4, timeout=3000, heap="8g", coverage=False)
     ctx.check_model(r, "adaptive reader = regular reader on unambiguous cases; lock stable")
-    ctx.require_coverage(r, ["MDelimEnd", "MItemHeaderStep", "MPixelItemValue", "MEnterPixel", "MReadValue", "MElemHeaderStep"])
+    # vacuity: every reader action is taken (coverage statistics on the cases without long values)
+    rc = vlib.tlc(R.SPEC, "MC_Adaptive", "MC_Adaptive_cov.cfg", workers=2, timeout=3000, heap="4g")
+    ctx.check_model(rc, "adaptive reader, coverage run")
+    ctx.require_coverage(rc, ["MDelimEnd", "MItemHeaderStep", "MPixelItemValue", "MEnterPixel", "MReadValue", "MElemHeaderStep"])
 
     cases = ctx.path("cases.ndjson")
     gr, n = vlib.tlc_generate(R.SPEC, "Gen_Adaptive", "Gen_Adaptive.cfg", cases, timeout=3000, heap="8g")
@@ -52,7 +56,8 @@ def run(ctx):
         args += ["--selftest", os.environ["VERIF_SELFTEST"]]
     rep = vlib.run_driver(R.DRV, args, env=ctx.env(), timeout=3000)
     by = rep["unambiguous_by_class"]
-    for need in ("IVRLE spells an incompatible VR", "IVRLE plain", "EVRLE plain", "EVRLE spells a compatible VR"):
+    for need in ("IVRLE spells an incompatible VR", "IVRLE plain", "EVRLE plain", "EVRLE spells a compatible VR",
+                 "IVRLE later elements spell VRs", "EVRLE later elements spell VRs"):
         if not by.get(need):
             raise vlib.ToolError("vacuity: no unambiguous case of class '%s'" % need)
     if not rep["ambiguous_cases"]:
